@@ -107,6 +107,24 @@ theorem C02_signed_pipeline_verifies_after_roundtrip (render : S.Sig → String)
       VerifiesAllList S parseSig (S.pubOf k) repo env₁ (p'.steps.getD []) :=
   signed_pipeline_roundtrip S render parseSig hrender v p ws hv hd h hs k alg repo env₁ henv signed hsign
 
+/-! ### The parser's image matters (finding F21) -/
+
+/-- Finding F21 in the model: a step OUTSIDE the parser's image — its unknown fields hold the key `plugins`,
+    which interpolation of an unknown key `"${P}"` with `P=plugins` produces — marshals with that entry under the
+    field's name, re-parses with it as the typed field, and the signed `plugins` value differs: the honest
+    signature no longer verifies. The round-trip theorems exclude it through `parseCommand m = .ok c`
+    (the parser's guarantee `CommandOK`: no unknown key is a declared key). -/
+def cF21 : CommandStep :=
+  { (default : CommandStep) with command := "echo hi", rem := some [("plugins", .seq [.str "docker#v1"])] }
+
+example : ∃ kvs c', rereadJ (mCommand cF21) = .omap kvs ∧ parseCommand kvs = .ok c' ∧
+    fieldValue c' "r" "plugins" ≠ fieldValue cF21 "r" "plugins" := by
+  refine ⟨[("command", .str "echo hi"), ("plugins", .seq [.str "docker#v1"])], _, by rfl, by rfl, ?_⟩
+  intro h
+  have h2 : fieldValue cF21 "r" "plugins" = some .null := by rfl
+  rw [h2] at h
+  revert h
+  simp [fieldValue, pluginsField, mPlugins]
 /-! ### Non-vacuity -/
 
 namespace Example
